@@ -422,3 +422,59 @@ pub fn with_pool<T: Send>(threads: usize, f: impl FnOnce() -> T + Send) -> T {
         .expect("pool");
     pool.install(f)
 }
+
+
+// ---------------------------------------------------------------------------
+// tracing: everything enabled, everything evaluated, nothing kept
+// ---------------------------------------------------------------------------
+
+/// `tracing` evaluates the arguments of a span or event only when a subscriber enables its
+/// callsite; without one, an expression inside a log line (`a - b`, `v[i + 1]`, a division) never
+/// runs. The command-line tools install a subscriber, so the harness does too: every callsite is
+/// enabled and every recorded field is formatted (into nothing), which is what a `fmt` or
+/// `chrome` layer does with it.
+struct AllOn;
+
+struct FieldSink;
+
+struct Null;
+
+impl std::fmt::Write for Null {
+    fn write_str(&mut self, _: &str) -> std::fmt::Result {
+        Ok(())
+    }
+}
+
+impl tracing::field::Visit for FieldSink {
+    fn record_debug(&mut self, _field: &tracing::field::Field, value: &dyn std::fmt::Debug) {
+        use std::fmt::Write as _;
+        let _ = write!(Null, "{:?}", value);
+    }
+}
+
+impl tracing::Subscriber for AllOn {
+    fn enabled(&self, _: &tracing::Metadata<'_>) -> bool {
+        true
+    }
+    fn new_span(&self, attrs: &tracing::span::Attributes<'_>) -> tracing::span::Id {
+        attrs.record(&mut FieldSink);
+        tracing::span::Id::from_u64(1)
+    }
+    fn record(&self, _: &tracing::span::Id, values: &tracing::span::Record<'_>) {
+        values.record(&mut FieldSink);
+    }
+    fn record_follows_from(&self, _: &tracing::span::Id, _: &tracing::span::Id) {}
+    fn event(&self, event: &tracing::Event<'_>) {
+        event.record(&mut FieldSink);
+    }
+    fn enter(&self, _: &tracing::span::Id) {}
+    fn exit(&self, _: &tracing::span::Id) {}
+}
+
+/// Installs the all-enabled subscriber for the whole process (unless `VERIF_NO_TRACING` is set).
+pub fn install_tracing_sink() -> bool {
+    if std::env::var_os("VERIF_NO_TRACING").is_some() {
+        return false;
+    }
+    tracing::subscriber::set_global_default(AllOn).is_ok()
+}
